@@ -117,18 +117,29 @@ func VerifC11Reframe() {
 	c2s := vf.Choice("direction", 2) == 0
 	enc := encNames[vf.Choice("encoding", len(encNames))]
 
+	// the factory may install a processor for both directions or only for the one under test
+	onlyThisDirection := vf.Choice("processor-only-for-this-direction", 2) == 1
 	var pt *passThrough
 	c2sSink, s2cSink := &sinkRec{}, &sinkRec{}
 	factory := AsStreamProcessorFactory(func(u *url.URL, server, client Processor) (Processor, Processor) {
 		a, b := &passThrough{next: server}, &passThrough{next: client}
 		if c2s {
 			pt = a
+			if onlyThisDirection {
+				return a, nil
+			}
 		} else {
 			pt = b
+			if onlyThisDirection {
+				return nil, b
+			}
 		}
 		return a, b
 	})
 	cp, sp := factory(&url.URL{Scheme: "https", Host: "origin"}, h2.VerifNewProcessors(c2sSink, s2cSink))
+	if cp == nil {
+		cp = c2sSink // no processor for that direction: the relay talks to the sink itself
+	}
 
 	hdr := []hpack.HeaderField{{Name: ":path", Value: "/svc/Method"}, {Name: "content-type", Value: "application/grpc"}}
 	if enc != "" {
